@@ -3,11 +3,15 @@ check('C09', 'proof',
       'new[perm[i]] = old[i] for every permutation, performs exactly #inversions swaps and accumulates the sign (-1)^(#inverted pairs with two odd occupations) = sign of the Fock-space '
       'permutation; spatial_inversion is an involution that mirrors sites and exchanges left/right labels, exponents and bond dimensions; roll_mps_unit_cell (tensors fetched as stored) '
       'and enlarge_mps_unit_cell relabel sites as documented and keep labels truthful (plus a machine-checked counterexample for the default-form variant of roll, the former defect F7). '
+      'T09_add_linear / T09_add_linear_tensors (Model/MpsAdd.v): the block construction of MPS.add - first site row block (alpha A_1, beta B_1), inner sites diag(A_i, B_i), last site column '
+      'block (A_L; B_L) - has matrix product alpha*prod A + beta*prod B for all chains of integer matrices of equal length L >= 2 with arbitrary non-uniform bond dimensions, and with physical '
+      'legs for every configuration (induction on L); the canonical_form_finite afterwards and the gauge of the boundary legs are not modelled, and these definitions have no correspondence '
+      'stream (dense oracle only). '
       'The sequence of adjacent swaps performed by permute_sites and the resulting arrangement, and labels/dimensions after roll/enlarge/inversion/convert_form, are replayed on the '
       'models for every generated case.  NOT proved, oracle-checked only (dense numpy state resp. transfer-matrix contraction of explicitly transformed unit-cell tensors, after every '
       'operation, states in every stored form with non-uniform chi): apply_local_op / apply_product_op / apply_local_term incl. Jordan-Wigner strings and norm tracking, swap/permute '
       'incl. fermionic signs, add = alpha psi + beta phi, group_sites+group_split and enlarge_chi preserve the state, compress(_svd) within the angle bound of the reported truncation '
       'error, spatial_inversion, roll, enlarge on infinite states.  Five defects of the unchanged tree are recorded as known findings (F34-F38); F7 was re-found before its repair.',
       'Trusted: Coq kernel+VM, harness generators and numpy references; site operator matrices are taken from the site classes (checked by C12); a global sign is not compared where the '
-      'documentation says it may be lost (JW string through bond charges); compression is bounded, not characterised; T09_add_linear / group_split / compress are not formalised.',
+      'documentation says it may be lost (JW string through bond charges); compression is bounded, not characterised; T09_apply_product_op_norm / group_split / compress are not formalised.',
       'Coq proof over all inputs on the model + differential correspondence + dense numpy oracle', '5.C09')
